@@ -285,4 +285,13 @@ def _respell(rng, s):
     return t
 
 
-PROP = C13()
+from srccall import with_src  # noqa: E402
+
+# translated source: canonicalize_name / is_normalized_name are proved equal to Names.canonicalizeName / Names.isNormalized;
+# the compiled patterns are resolved at translation time to the regenerated Rx terms (Gen.NameValidRx, Gen.NormalizedRx) and
+# to the measured separator set of _canonicalize_regex (Gen.NameTables)
+PROP = with_src(C13(), share=10, functions=["canonicalize_name", "is_normalized_name"],
+                module="PkgProofs.Props.Src.Names",
+                theorems=["Src.canonicalize_name_translated", "Src.is_normalized_name_translated",
+                          "Src.names_patterns_supported", "Src.canonicalize_name_eq_model",
+                          "Src.is_normalized_name_eq_model"])
